@@ -3928,8 +3928,10 @@ class RandVar(Vars):
     def __add__(self, other):
 
         expr = super().__add__(other)
-        if isinstance(expr, RoAffine):
-            expr = DecRoAffine(expr, other.event_adapt, other.ctype)
+        if isinstance(expr, RoAffine) and not isinstance(expr, DecRoAffine):
+            # a random variable outside E() makes the sum a robust
+            # expression, whichever operand comes first
+            expr = DecRoAffine(expr, other.event_adapt, 'R')
 
         return expr
 
